@@ -365,7 +365,11 @@ def monitor_case(ops, obs, which):
             ro_mode = mode in ("ro", "copy_ro")
             if o.get("pk") == "0" and (r.startswith("io:") or ro_mode):
                 V("C09", "open-alters-file", f"{ops[i].strip()} -> {r}: bytes that were in the file changed", i)
-            if r.startswith("io:") and fstate["badfile"] is False and fstate["before_close"] is not None \
+            excl = kvs.get("create") in ("2", "3") and mode in ("mut", "copy")
+            if excl and r == "ok" and fstate["last_fh"] not in (None, "none"):
+                for p_ in ("C09", "C05"):
+                    V(p_, "create-new-not-exclusive", f"{ops[i].strip()} succeeded although the file exists: an exclusive creation must be refused (AlreadyExists) and leave the file alone", i)
+            if r.startswith("io:") and not excl and fstate["badfile"] is False and fstate["before_close"] is not None \
                and kvs.get("magic") == cfg.get("magic") and kvs.get("reserved") == cfg.get("reserved") \
                and (ro_mode or kvs.get("freelist") == cfg.get("freelist")) \
                and (kvs.get("cap") in ("same", "none") or (kvs.get("cap", "").isdigit() and int(kvs["cap"]) >= int(cfg.get("cap", "0")))):
@@ -387,6 +391,8 @@ def monitor_case(ops, obs, which):
                     if got != (b["al"], b["di"], b["flset"]):
                         V("C13", "last-owner-release", f"{b['last_owner']} (the owned handle outlived every arena value) should leave (al,di,fl) = {(b['al'], b['di'], b['flset'])}; the reopened file has {got}", i)
                     b = None
+                if b is not None and "flset" in b:
+                    b = None    # (expectation of a `close_last`, not judged on this degenerate arena)
                 if b is not None and fstate["badfile"] is False and int(o["al"]) <= int(o["cp"]) and int(b["al"]) <= int(b["cp"]):
                     for k in ("al", "di", "ms", "fl", "ma"):
                         if o.get(k) != b.get(k):
